@@ -29,7 +29,7 @@ struct ProbeDriver {
   kb_end: bool, ended: bool,
   tablet: bool, just_switched: bool,
   interrupted_once: bool,
-  fail_at: Option<usize>, calls: usize, failed: bool, spun: bool, check_all_up: bool,
+  fail_at: Option<usize>, calls: usize, failed: bool, spun: bool, check_all_up: bool, fresh_after_switch: bool,
   phys: BTreeSet<KeyCode>, absorbable: BTreeSet<KeyCode>,      // keys physically down as far as the mapper was told (independent of the mapper); keys some mapping may absorb
   log: Vec<String>,
   violations: Vec<(String, String)>,                          // (property, what)
@@ -145,6 +145,7 @@ impl Driver for ProbeDriver {
     self.just_switched = false;
     let r = match self.kb_q.pop_front() { Some(e) => Next::One(e), None => { self.kb_notified = false; if self.kb_end { self.ended = true; Next::End } else { Next::Busy } } };
     self.log.push(format!("next_keyboard -> {:?}", r));
+    if let Next::One(_) = &r { if !self.tablet { self.fresh_after_switch = false; } }
     if let Next::One(e) = &r { if !self.tablet {
       // a key change, judged without the mapper: a press of a key that is up / a release of a key that is down (C11: "as long as no further key event arrives")
       let (key, change) = match e { Pressed(k) => (*k, self.phys.insert(*k)), Released(k) => (*k, self.phys.remove(k)) };
@@ -169,7 +170,7 @@ impl Driver for ProbeDriver {
     let r = match self.tab_q.pop_front() { Some(on) => { self.tablet = on; self.just_switched = true; Next::One(if on { On } else { Off }) }, None => { self.tab_notified = false; Next::Busy } };
     self.log.push(format!("next_tablet -> {:?}", r));
     if let Next::One(_) = &r {
-      self.rep = None; self.check_all_up = true; self.phys.clear();
+      self.rep = None; self.check_all_up = true; self.phys.clear(); self.fresh_after_switch = true;
       let out = self.refm.release_all();
       if !out.is_empty() { self.pending = Some((out, Origin::Tablet)); }
       self.last_origin = Origin::Tablet;
@@ -183,7 +184,9 @@ impl Driver for ProbeDriver {
       self.viol("C12", format!("{:?} was written to the virtual keyboard while the tablet switch is on", evs));
     }
     match self.pending.take() {
-      None => { let o = self.last_origin; self.viol(o.prop(), format!("{:?} was written although nothing is due (previous activity: {})", evs, o.name())); },
+      None => { let o = self.last_origin; self.viol(o.prop(), format!("{:?} was written although nothing is due (previous activity: {})", evs, o.name()));
+        // C12 "mapping resumes as from a fresh start": between a tablet-mode change and the next key event a fresh mapper and loop have nothing armed and nothing to write
+        if self.fresh_after_switch { self.viol("C12", format!("{:?} was written after a tablet-mode change although no key event has arrived since: mapping did not resume as from a fresh start", evs)); } },
       Some((b, o)) => { if &b != evs { self.viol(o.prop(), format!("{:?} was written where the {} is {:?}", evs, o.name(), b)); } }
     }
     self.tick("send", Instant::now())?;
@@ -243,7 +246,7 @@ fn run_case(seed: u64) -> (Vec<(String, String)>, Vec<String>, Layout, Vec<Event
   let fail_at = if r.below(3) == 0 { Some(1 + r.below(40)) } else { None };
   let now = Instant::now();
   let mut d = ProbeDriver { r, hist: hist.iter().cloned().collect(), wakeups_left: wakeups, kb_q: VecDeque::new(), tab_q: VecDeque::new(), kb_notified: false, tab_notified: false, kb_end: false, ended: false,
-                            tablet: false, just_switched: false, interrupted_once: false, fail_at, calls: 0, failed: false, spun: false, check_all_up: false, phys: BTreeSet::new(), absorbable: layout.mappings.iter().flat_map(|m| m.absorbing.iter().cloned()).collect(), log: Vec::new(), violations: Vec::new(),
+                            tablet: false, just_switched: false, interrupted_once: false, fail_at, calls: 0, failed: false, spun: false, check_all_up: false, fresh_after_switch: false, phys: BTreeSet::new(), absorbable: layout.mappings.iter().flat_map(|m| m.absorbing.iter().cloned()).collect(), log: Vec::new(), violations: Vec::new(),
                             refm: key_transforms::Mapper::for_layout(&layout), rep: None, pending: None, last_origin: Origin::Start, out_held: BTreeSet::new(), last_exit: now };
   let result = do_remapping_loop_one_device(&mut d, layout.clone(), false);
   d.log.push(format!("loop returned {:?}", result));
